@@ -819,7 +819,7 @@ class Gen:
                 return
             sa = self.shape[a]
             idx = [rng.randint(-sa[0], sa[0] - 1) for _ in range(rng.randint(1, 4))]
-            self.prog.append(["take", n, ["t", a], idx, rng.choice(["int64", "int32", "int8", "uint8"]) if all(i >= 0 for i in idx) else rng.choice(["int64", "int32", "int16"]), self.c()])
+            self.prog.append(["take", n, ["t", a], idx, rng.choice(["int64", "int32", "int8", "uint8"]) if all(i >= 0 for i in idx) else rng.choice(["int64", "int32", "int16"]), None])
             self.shape[n] = (len(idx),) + sa[1:]
         st = self.prog[-1]
         ok = all(self.contig.get(x[1], False) for x in st[1:] if isinstance(x, list) and len(x) == 2 and x[0] == "t")
@@ -864,8 +864,8 @@ class Gen:
                 tgt = (2,) + tgt
             vf, s = ["bt", list(tgt)], tgt
         cc = None if rng.random() < 0.95 else rng.choice([True, False])
-        if k == "T":
-            cc = None
+        if k in ("T", "gi"):
+            cc = None  # indexing and .T have no public `constant=` spelling
         self.prog.append(["view", n, vf, ["t", a], cc])
         self.shape[n] = tuple(s)
         self.known[n] = self.known[a]
